@@ -99,6 +99,8 @@ func main() {
 	switch cmd {
 	case "c13":
 		runC13()
+	case "c14":
+		runC14()
 	default:
 		fmt.Fprintln(os.Stderr, "unknown property", cmd)
 		os.Exit(2)
